@@ -32,6 +32,7 @@ ANCHORS = [('spatialmath.smuserlist', 'SMUserList.binop'), ('spatialmath.smuserl
 CLASSES = ['SO2', 'SE2', 'SO3', 'SE3', 'Quaternion', 'UnitQuaternion', 'Twist2', 'Twist3']
 OPS = [('*', operator.mul), ('/', operator.truediv), ('+', operator.add), ('-', operator.sub), ('==', operator.eq), ('!=', operator.ne)]
 TOL = 1e-12
+OPERATORS = ('neg',)
 
 
 def value(cname, k):
@@ -247,9 +248,9 @@ def accessors(cname):
             if cname == 'SE2':
                 A.append(('xyt', lambda x: x.xyt()))
     elif cname == 'Quaternion':
-        A += [('conj', lambda x: x.conj()), ('norm', lambda x: x.norm()), ('log', lambda x: x.log())]
+        A += [('neg', lambda x: -x), ('conj', lambda x: x.conj()), ('norm', lambda x: x.norm()), ('log', lambda x: x.log())]
     elif cname == 'UnitQuaternion':
-        A += [('inv', lambda x: x.inv()), ('conj', lambda x: x.conj()), ('norm', lambda x: x.norm()), ('R', lambda x: x.R), ('log', lambda x: x.log())]
+        A += [('neg', lambda x: -x), ('inv', lambda x: x.inv()), ('conj', lambda x: x.conj()), ('norm', lambda x: x.norm()), ('R', lambda x: x.R), ('log', lambda x: x.log())]
         for u in ('rad', 'deg'):
             A.append(('eul/%s' % u, lambda x, u=u: x.eul(unit=u)))
             for o in ('zyx', 'xyz', 'yxz'):
@@ -268,6 +269,11 @@ def unary(ctx, cname):
         site = '%s.%s' % (cname, an.split('/')[0])
         P = dict(cls=cname, acc=an, M=M)
         ok1, s1 = call(f, build(cname, ks[:1]))
+        if not ok1 and an in OPERATORS:
+            # "1 op -> 1": a documented unary operator must produce one result from one value
+            ctx.case(cid, key=cid)
+            ctx.fail(cid, site, 'raises:' + type(s1).__name__, P, 'unary operator %s on one value raised %r' % (an, s1))
+            continue
         if not ok1:
             # the single-valued accessor itself fails: not a broadcasting matter (other properties), only noted
             ctx.note('single_valued_accessor_fails', '%s.%s -> %s' % (cname, an, type(s1).__name__))
@@ -340,10 +346,71 @@ def unary(ctx, cname):
                     compare(ctx, cid, 'UnitQuaternion.interp', P, res, singles, n)
 
 
+def extras(cname):
+    """per-value methods, properties and conversions the statement does not name one by one ("all per-value methods").
+    Oracle for these: on M values they either refuse loudly (noted, not a violation) or return M results equal to the
+    single-valued results - a silently shortened, first-element-only or mis-indexed result is a violation"""
+    import spatialmath as sm
+    E = []
+    if cname == 'SO2':
+        E += [('SE2()', lambda x: x.SE2()), ('SE2(x)', lambda x: sm.SE2(x)), ('A', lambda x: x.A)]
+    elif cname == 'SE2':
+        E += [('SE3()', lambda x: x.SE3()), ('SE3(z)', lambda x: x.SE3(z=2.5)), ('Twist2()', lambda x: x.Twist2()), ('Twist2(x)', lambda x: sm.Twist2(x)),
+              ('SO2(x)', lambda x: sm.SO2(x)), ('A', lambda x: x.A), ('SE2(x)', lambda x: sm.SE2(x))]
+    elif cname == 'SO3':
+        E += [('SE3(x)', lambda x: sm.SE3(x)), ('SE3.SO3(x)', lambda x: sm.SE3.SO3(x)), ('UnitQuaternion(x)', lambda x: sm.UnitQuaternion(x)),
+              ('angvec', lambda x: x.angvec()), ('n', lambda x: x.n), ('o', lambda x: x.o), ('a', lambda x: x.a), ('A', lambda x: x.A), ('SO3(x)', lambda x: sm.SO3(x))]
+    elif cname == 'SE3':
+        E += [('SO3(x)', lambda x: sm.SO3(x)), ('Twist3()', lambda x: x.Twist3()), ('Twist3(x)', lambda x: sm.Twist3(x)), ('UnitQuaternion(x)', lambda x: sm.UnitQuaternion(x)),
+              ('Ad', lambda x: x.Ad()), ('jacob', lambda x: x.jacob()), ('angvec', lambda x: x.angvec()), ('delta', lambda x: x.delta(sm.SE3(0.01, 0.02, 0.03))),
+              ('n', lambda x: x.n), ('o', lambda x: x.o), ('a', lambda x: x.a), ('A', lambda x: x.A), ('SE3(x)', lambda x: sm.SE3(x))]
+    elif cname == 'Quaternion':
+        E += [('s', lambda x: x.s), ('v', lambda x: x.v), ('vec', lambda x: x.vec), ('matrix', lambda x: x.matrix), ('unit', lambda x: x.unit()),
+              ('exp', lambda x: x.exp()), ('A', lambda x: x.A), ('Quaternion(x)', lambda x: sm.Quaternion(x))]
+    elif cname == 'UnitQuaternion':
+        E += [('SO3()', lambda x: x.SO3()), ('SE3()', lambda x: x.SE3()), ('SO3(x)', lambda x: sm.SO3(x)), ('angvec', lambda x: x.angvec()), ('angvec/deg', lambda x: x.angvec(unit='deg')),
+              ('vec3', lambda x: x.vec3), ('vec', lambda x: x.vec), ('s', lambda x: x.s), ('v', lambda x: x.v), ('matrix', lambda x: x.matrix), ('A', lambda x: x.A),
+              ('UnitQuaternion(x)', lambda x: sm.UnitQuaternion(x)), ('unit', lambda x: x.unit())]
+    elif cname == 'Twist3':
+        E += [('v', lambda x: x.v), ('w', lambda x: x.w), ('S', lambda x: x.S), ('A', lambda x: x.A), ('isprismatic', lambda x: x.isprismatic), ('isrevolute', lambda x: x.isrevolute),
+              ('isunit', lambda x: x.isunit), ('unit', lambda x: x.unit), ('ad', lambda x: x.ad()), ('Ad', lambda x: x.Ad()), ('SE3()', lambda x: x.SE3()),
+              ('se3', lambda x: x.se3()), ('exp', lambda x: x.exp()), ('exp(s)', lambda x: x.exp(0.3)), ('pitch', lambda x: x.pitch()), ('pole', lambda x: x.pole()),
+              ('theta', lambda x: x.theta()), ('line', lambda x: x.line()), ('Twist3(x)', lambda x: sm.Twist3(x))]
+    elif cname == 'Twist2':
+        E += [('v', lambda x: x.v), ('w', lambda x: x.w), ('S', lambda x: x.S), ('A', lambda x: x.A), ('isprismatic', lambda x: x.isprismatic), ('isrevolute', lambda x: x.isrevolute),
+              ('isunit', lambda x: x.isunit), ('unit', lambda x: x.unit), ('SE2()', lambda x: x.SE2()), ('se2', lambda x: x.se2()), ('exp', lambda x: x.exp()),
+              ('exp(s)', lambda x: x.exp(0.3)), ('pole', lambda x: x.pole()), ('Twist2(x)', lambda x: sm.Twist2(x)), ('ad', lambda x: x.ad()), ('Ad', lambda x: x.Ad())]
+    return E
+
+
+def unary_extra(ctx, cname):
+    for (an, f), M in itertools.product(extras(cname), range(1, 6)):
+        cid = 'C09/%s/extra/%s/M=%d' % (cname, an, M)
+        if not ctx.want(cid):
+            continue
+        ks = [2 + j for j in range(M)]
+        site = '%s.%s' % (cname, an.split('/')[0])
+        P = dict(cls=cname, acc=an, M=M, mode='extra')
+        ok1, s1 = call(f, build(cname, ks[:1]))
+        if not ok1:
+            ctx.note('single_valued_accessor_fails', '%s.%s -> %s' % (cname, an, type(s1).__name__))
+            continue
+        ctx.case(cid, key=cid, trivial=(M == 1))
+        ok, res = call(f, build(cname, ks))
+        ctx.cell(site, 'M=%d' % M, 'raised' if not ok else 'ok')
+        if not ok:
+            ctx.note('not_vectorised_refuses', '%s.%s -> %s' % (cname, an, type(res).__name__))
+            continue
+        oks, singles = call(lambda: [f(build(cname, [kk])) for kk in ks])
+        if not oks:
+            raise HarnessError('single-valued %s failed: %r' % (cid, singles))
+        compare(ctx, cid, site, P, res, singles, M)
+
+
 def shards(tier, seed):
     out = []
     for c in CLASSES:
-        out += [('binary', c), ('powpoint', c), ('unary', c)]
+        out += [('binary', c), ('powpoint', c), ('unary', c), ('extra', c)]
     return out
 
 
@@ -353,5 +420,7 @@ def run_shard(ctx, shard):
         binary(ctx, c)
     elif k == 'powpoint':
         power_point(ctx, c)
+    elif k == 'extra':
+        unary_extra(ctx, c)
     else:
         unary(ctx, c)
